@@ -81,7 +81,7 @@ def arun(coro: Any) -> Any:
 
 # ------------------------------------------------------------- environments
 
-ENV_KINDS = ["default", "escape", "strict", "limits", "shopify", "strict_escape"]
+ENV_KINDS = ["default", "escape", "strict", "limits", "shopify", "default", "strict_escape", "limits"]
 LOADER_KINDS = ["dict", "cdict", "cdict_ns", "fs", "cfs", "choice", "cchoice"]
 
 
@@ -1290,7 +1290,7 @@ def main(chk: C.Check, build: C.Build) -> None:
         run_cts(chk, stats)
         timing["cts"] = round(time.time() - t0, 1)
         t0 = time.time()
-        run_schedules(chk, C.rng("c03", "sched"), 200 if thorough else 22, 500, stats)
+        run_schedules(chk, C.rng("c03", "sched"), 200 if thorough else 16, 500, stats)
         timing["schedules"] = round(time.time() - t0, 1)
         t0 = time.time()
         items: list[dict[str, Any]] = []
